@@ -119,7 +119,7 @@ CHECKS = {
             "TLC decides send safety incl. negative windows, overflow errors, the conservation law, the batching bound and agreement with the peer's ledger on the model; on the code "
             "every DATA frame of every recorded connection must fit the ledger, queued data must drain, provoked overflows/overruns must draw FLOW_CONTROL_ERROR and honest peers none, "
             "returned credit may never exceed bytes received and must be within 4096 of them at quiescence.",
-            "Client ledger = upper bound (increases at send, decreases at ack); the fork's client Transport is driven as a sender of request bodies against a raw-frame peer (same ledger, incl. MAX_FRAME_SIZE changes; a rejection must repeat in a second recording), its receive side is not; receiver scenarios include a handler that closed the body (discarded, heavily padded DATA must be refunded at once); D16 (over-returned connection credit after a client RST mid-body) is reported as KNOWN-FINDING."),
+            "Client ledger = upper bound (increases at send, decreases at ack); the fork's client Transport is driven as a sender of request bodies against a raw-frame peer (same ledger, incl. MAX_FRAME_SIZE changes; a rejection must repeat in a second recording) and as a receiver of response bodies; receiver scenarios include a handler that closed the body (discarded, heavily padded DATA must be refunded at once); D16 (over-returned connection credit after a client RST mid-body) is reported as KNOWN-FINDING."),
     'C08': ("Rewrite.tla (end-to-end headers kept, hop-by-hop removed, Host rule, request-target identity) and Relay.tla (FIFO relay with free re-framing, conservation + liveness) "
             "checked by TLC; Rewrite scenarios replayed through the real stack; real end-to-end runs with keyed body bytes recorded at both ends and validated by TLC (Trace_Relay.tla)",
             "Header/URL/Host rules are decided for all scenarios in the bound and replayed one by one; for bodies every piece received by the backend or the client must be the next "
